@@ -61,16 +61,24 @@ def LimEnv.ofOpts {ε : Type} (mk : LimitKind → ε) (o : Opts)
 
 /-! ## what is consumed -/
 
-/-- an item handed over between two iterators; `toGuard` = from a node's operator to its guard -/
+/-- an item handed over between two iterators; `toGuard` = from a node's operator to its guard;
+    `late` = an `Err` had been handed over at the same place before this item (the consumer pulled
+    again after it had received an error) -/
 structure Handed (ε ρ : Type) where
   toGuard : Bool
   item : Except ε ρ
+  late : Bool
   deriving DecidableEq
 
 section trace
 variable {χ ρ ν ε κ α : Type} [DecidableEq κ]
 
-def handed (toGuard : Bool) (s : Stream ε ρ) : List (Handed ε ρ) := s.map (Handed.mk toGuard)
+def handedFrom (toGuard : Bool) : Bool → Stream ε ρ → List (Handed ε ρ)
+  | _, [] => []
+  | seen, x :: xs => ⟨toGuard, x, seen⟩ :: handedFrom toGuard (seen || !Item.isOk x) xs
+
+/-- the items handed over at one place, in order -/
+def handed (toGuard : Bool) (s : Stream ε ρ) : List (Handed ε ρ) := handedFrom toGuard false s
 
 /-- demand of the driver's `collect`: every item through the first `Err`, or all items and the end -/
 def driverDemand (s : Stream ε ρ) : Nat :=
@@ -102,7 +110,7 @@ def parkTrace {σ : Type} (L : LimEnv ε) (site : Site) (t : Trans σ ε ρ) (pa
     (childTrace : Nat → List (Handed ε ρ)) (pre : Nat) (d : Nat) : List (Handed ε ρ) :=
   unaryTrace L site (parkT t parks flushParks drop) (st, none) c childTrace pre d ++
     (parkEvents t parks flushParks st c (guardNeed L site ((parkT t parks flushParks drop).run (st, none) c) d)).map
-      (fun e => ⟨true, .error e⟩)
+      (fun e => ⟨true, .error e, false⟩)
 
 /-- `execute_order_by` / `execute_aggregate` drain their input when the iterator tree is BUILT
     (`execute_plan`), before anything is demanded of them: with `eager` the accounting includes that
@@ -118,29 +126,64 @@ def leafTrace (L : LimEnv ε) (site : Site) (body : Stream ε ρ) (d : Nat) : Li
     (`eager`: see `eagerPre`) -/
 def trace (eager : Bool) (S : Sem χ ρ ν ε κ α) (Q : Quirks) (L : LimEnv ε) :
     Site → ρ → Plan χ ρ ε α → Nat → List (Handed ε ρ)
-  | site, _, .source items, d => leafTrace L site items d
+  | site, _, .scan rows, d => leafTrace L site (rows.map .ok) d
+  | site, _, .fail e, d => leafTrace L site [.error e] d
   | site, env, .arg, d => leafTrace L site [.ok env] d
+  | site, env, .indexSeek key value fb, d =>
+    let c := runL S Q L (.left site) env fb
+    let body := parkHead (S.park L.coll value env S.empty) Q.guardDropsFailureAtEnd (seekBody S L env key value c)
+    let d1 := guardNeed L site body d
+    -- the failure parked while the seek value was evaluated is handed to the guard on its first pull
+    handed true (body.take d1) ++
+      (if d1 = 0 then [] else (S.park L.coll value env S.empty).toList.map (fun e => ⟨true, .error e, false⟩)) ++
+      (match S.eval L.coll value env S.empty with
+       | .error _ => []
+       | .ok v =>
+         match S.lookup key v with
+         | some _ => []
+         | none => handed false (c.take d1) ++ trace eager S Q L (.left site) env fb d1)
   | site, env, .filter pred inp, d =>
-    unaryTrace L site (filterT S Q L env pred) () (runL S Q L (.left site) env inp)
+    unaryTrace L site (dropErrT (Q.dropsErr .filter) (filterT S Q L env pred)) () (runL S Q L (.left site) env inp)
       (trace eager S Q L (.left site) env inp) 0 d
   | site, env, .filterExists sub inp, d =>
     let g := fun k r => existsRow Q r (runL S Q L (.exec k site) (S.bind env r) sub)
     let c := runL S Q L (.left site) env inp
-    unaryTrace L site (flatMapT g) 0 c (trace eager S Q L (.left site) env inp) 0 d ++
-      ((batches g 0 c (guardNeed L site ((flatMapT g).run 0 c) d)).map (fun b =>
+    unaryTrace L site (dropErrT (Q.dropsErr .filter) (flatMapT g)) 0 c (trace eager S Q L (.left site) env inp) 0 d ++
+      ((batches g 0 c (guardNeed L site ((dropErrT (Q.dropsErr .filter) (flatMapT g)).run 0 c) d)).map (fun b =>
         trace eager S Q L (.exec b.1 site) (S.bind env b.2.1) sub 1)).flatten
   | site, env, .project projs inp, d =>
-    parkTrace L site (projectT S L env projs) (rowParks S L env (projs.map (·.2))) noFlushParks
+    parkTrace L site (dropErrT (Q.dropsErr .project) (projectT S L env projs)) (rowParks S L env (projs.map (·.2))) noFlushParks
       Q.guardDropsFailureAtEnd () (runL S Q L (.left site) env inp) (trace eager S Q L (.left site) env inp) 0 d
   | site, env, .distinct inp, d =>
     unaryTrace L site (distinctT S Q.distinctDropsErr) [] (runL S Q L (.left site) env inp)
       (trace eager S Q L (.left site) env inp) 0 d
   | site, env, .unwind e alias inp, d =>
-    parkTrace L site (flatMapT (unwindRow S L site env e alias)) (rowParks S L env [e]) noFlushParks
+    parkTrace L site (dropErrT (Q.dropsErr .unwind) (flatMapT (unwindRow S L site env e alias))) (rowParks S L env [e]) noFlushParks
       Q.guardDropsFailureAtEnd 0 (runL S Q L (.left site) env inp) (trace eager S Q L (.left site) env inp) 0 d
-  | site, env, .expand f inp, d =>
-    unaryTrace L site (flatMapT (fun _ r => f r)) 0 (runL S Q L (.left site) env inp)
+  | site, env, .expand kind g inp, d =>
+    unaryTrace L site (dropErrT (Q.dropsErr kind.op) (flatMapT (fun _ r => g r))) 0 (runL S Q L (.left site) env inp)
       (trace eager S Q L (.left site) env inp) 0 d
+  | site, env, .procedureCall name args inp, d =>
+    parkTrace L site (dropErrT (Q.dropsErr .procedureCall) (flatMapT (fun _ r => procRow S L env name args r)))
+      (rowParks S L env args) noFlushParks
+      Q.guardDropsFailureAtEnd 0 (runL S Q L (.left site) env inp) (trace eager S Q L (.left site) env inp) 0 d
+  | site, env, .fixup nulls outer filtered, d =>
+    -- both inputs are drained when the iterator is built (like OrderBy / Aggregate): without
+    -- `eager` they are accounted for as soon as one item is demanded of the node
+    let c1 := runL S Q L (.left site) env outer
+    let c2 := runL S Q L (.right site) env filtered
+    let lo := dropErrT (ρ := ρ) (Q.dropsErr .fixupOuter) (loopT L (.inner site) "OptionalWhereFixup.outer")
+    let lf := dropErrT (ρ := ρ) (Q.dropsErr .fixupFiltered) (loopT L (.inner (.inner site)) "OptionalWhereFixup.filtered")
+    let body := fixupBody S Q L site nulls c1 c2
+    let d1 := guardNeed L site body d
+    if max d1 (eagerPre eager) = 0 then []
+    else
+      let d2 := lo.need ⟨0, 0, false⟩ c1 (driverDemand (lo.run ⟨0, 0, false⟩ c1))
+      handed true (body.take d1) ++ handed false (c1.take d2) ++ trace eager S Q L (.left site) env outer d2 ++
+        (if allOk (lo.run ⟨0, 0, false⟩ c1) then
+           let d3 := lf.need ⟨0, 0, false⟩ c2 (driverDemand (lf.run ⟨0, 0, false⟩ c2))
+           handed false (c2.take d3) ++ trace eager S Q L (.right site) env filtered d3
+         else [])
   | site, env, .skip n inp, d =>
     (match S.window n env with
      | .error e => leafTrace L site [.error e] d
@@ -156,7 +199,7 @@ def trace (eager : Bool) (S : Sem χ ρ ν ε κ α) (Q : Quirks) (L : LimEnv ε
       Q.guardDropsFailureAtEnd ⟨[], 0, false⟩ (runL S Q L (.left site) env inp)
       (trace eager S Q L (.left site) env inp) (eagerPre eager) d
   | site, env, .aggregate groupBy aggs inp, d =>
-    parkTrace L site (aggregateT S L site env groupBy aggs) (fun _ _ => none) (aggregateFlushParks S L env aggs)
+    parkTrace L site (dropErrT (Q.dropsErr .aggregate) (aggregateT S L site env groupBy aggs)) (fun _ _ => none) (aggregateFlushParks S L env aggs)
       Q.guardDropsFailureAtEnd ⟨[], 0, false⟩ (runL S Q L (.left site) env inp)
       (trace eager S Q L (.left site) env inp) (eagerPre eager) d
   | site, env, .union all l r, d =>
@@ -173,19 +216,21 @@ def trace (eager : Bool) (S : Sem χ ρ ν ε κ α) (Q : Quirks) (L : LimEnv ε
       handed true ((t.run [] (cl ++ cr)).take d1) ++ handed false ((cl ++ cr).take d2) ++
         trace eager S Q L (.left site) env l d2 ++ trace eager S Q L (.right site) env r (d2 - cl.length)
   | site, env, .cartesian l r, d =>
-    let g := fun k lrow => (runL S Q L (.exec k site) env r).map (joinItem S lrow)
+    let g := fun k lrow => (dropErrs (Q.dropsErr .cartesianRight) (runL S Q L (.exec k site) env r)).map (joinItem S lrow)
     let c := runL S Q L (.left site) env l
-    unaryTrace L site (flatMapT g) 0 c (trace eager S Q L (.left site) env l) 0 d ++
-      ((batches g 0 c (guardNeed L site ((flatMapT g).run 0 c) d)).map (fun b =>
+    let t := dropErrT (Q.dropsErr .cartesianLeft) (flatMapT g)
+    unaryTrace L site t 0 c (trace eager S Q L (.left site) env l) 0 d ++
+      ((batches g 0 c (guardNeed L site (t.run 0 c) d)).map (fun b =>
         trace eager S Q L (.exec b.1 site) env r b.2.2)).flatten
   | site, env, .apply inp sub, d =>
     (match L.time (.inner site) 0 with
      | some e => leafTrace L site [.error e] d
      | none =>
-       let g := fun k r => applyRow S L site k r (runL S Q L (.exec k site) (S.bind env r) sub)
+       let g := fun k r => applyRow S L site k r (dropErrs (Q.dropsErr .applySub) (runL S Q L (.exec k site) (S.bind env r) sub))
        let c := runL S Q L (.left site) env inp
-       unaryTrace L site (flatMapT g) 0 c (trace eager S Q L (.left site) env inp) 0 d ++
-         ((batches g 0 c (guardNeed L site ((flatMapT g).run 0 c) d)).map (fun b =>
+       let t := dropErrT (Q.dropsErr .apply) (flatMapT g)
+       unaryTrace L site t 0 c (trace eager S Q L (.left site) env inp) 0 d ++
+         ((batches g 0 c (guardNeed L site (t.run 0 c) d)).map (fun b =>
            trace eager S Q L (.exec b.1 site) (S.bind env b.2.1) sub
              (driverDemand (runL S Q L (.exec b.1 site) (S.bind env b.2.1) sub)))).flatten)
 
